@@ -145,6 +145,12 @@ int main(int argc, char** argv)
                 "-o=" + std::string(4096, '='),
                 std::string(3000, '-'),
                 "--no-" + std::string(2000, 'g'),
+                // very long tokens (a recursive matcher would exhaust the stack on these)
+                "-" + std::string(200000, 't'),
+                "--opt=" + std::string(200000, 'v'),
+                "-o=" + std::string(200000, 'v'),
+                "--" + std::string(200000, 'n'),
+                "-" + std::string(100000, 'z') + "=" + std::string(100000, 'v'),
             };
             std::string distinct = "-";
             for (int c = 1; c < 256; c++)
